@@ -57,7 +57,11 @@ type c14Var struct {
 //	unrelated   C14UNREL= value
 //	nested      the condition is inside .if defined(SUBJECT)
 //	cond-self   SUBJECT= value, but inside .if defined(C14OTHER) ... .endif
-var c14Contexts = []string{"", "self=", "self?=", "self+=", "sibling", "unrelated", "nested", "cond-self"}
+//	for-self    SUBJECT= value, but inside .for c14i in ${C14LIST} ... .endfor (the list may be empty)
+//	guarded     the whole fragment is wrapped in .if !defined(C14_GUARD_MK) ... .endif and assigns SUBJECT inside:
+//	            a multiple-inclusion guard (Indentation level with guard = true) when nothing precedes it
+//	undef-self  SUBJECT= value, then .undef SUBJECT
+var c14Contexts = []string{"", "self=", "self?=", "self+=", "sibling", "unrelated", "nested", "cond-self", "for-self", "guarded", "undef-self"}
 
 // MkLines.checkAllData.vars.IsDefined(varname): the exact name was assigned on an
 // earlier line of the file (any operator) outside of .if and .for blocks
@@ -127,14 +131,15 @@ func (v c14Var) flags() string {
 // undefined when bmake evaluates the condition (at load time)?
 func (v c14Var) mayBeUndefined(prefs bool) bool {
 	switch v.Ctx {
-	case "self=", "self?=", "self+=", "nested":
+	case "self=", "self?=", "self+=", "nested", "really-guarded":
 		// assigned unconditionally before the condition, or guarded by .if defined(SUBJECT)
 		return false
 	}
 	if v.Def == "real" {
 		for _, rv := range c14RealVars {
 			if rv.name == v.Name || strings.HasPrefix(v.Name, rv.name+".") && rv.param {
-				return rv.undef
+				// before the preferences are loaded only the variables vardefs.go declares AlwaysInScope are there
+				return rv.undef || !prefs && rv.name != "MACHINE_ARCH"
 			}
 		}
 	}
@@ -294,6 +299,11 @@ type c14Spec struct {
 	Real     int    `json:"real,omitempty"`  // 1 + index into c14RealVars (whole-run layer), 0 = a variable declared through the shim
 	Param    string `json:"param,omitempty"` // the subject is BASE.<param>
 	Ctx      string `json:"ctx,omitempty"`   // see c14Contexts
+	// an .include line near the condition: "<where>|<path>", where = before (unconditional, before the
+	// condition) | cond (before it, inside .if defined(C14OTHER) ... .endif) | after (after the condition)
+	Inc string `json:"inc,omitempty"`
+	// the fragment is a hacks.mk (MkLines.checkAll sets Tools.SeenPrefs before every line)
+	Hacks bool `json:"hacks,omitempty"`
 }
 
 func (s c14Spec) variable() c14Var {
@@ -335,6 +345,107 @@ func (s c14Spec) context(cond string) (pre []string, line string, post []string)
 		line, post = ".  if "+cond, []string{".  endif", ".endif"}
 	case "cond-self":
 		pre = []string{".if defined(C14OTHER)", v.Name + "=\t" + val, ".endif"}
+	case "for-self":
+		pre = []string{".for c14i in ${C14LIST}", v.Name + "=\t" + val, ".endfor"}
+	case "undef-self":
+		pre = []string{v.Name + "=\t" + val, ".undef " + v.Name}
+	case "guarded":
+		pre = []string{".if !defined(C14_GUARD_MK)", "C14_GUARD_MK=\t# defined", v.Name + "=\t" + val}
+		line, post = ".  if "+cond, []string{".  endif", ".endif"}
+	}
+	if where, path, ok := strings.Cut(s.Inc, "|"); ok {
+		inc := ".include \"" + path + "\""
+		switch where {
+		case "before":
+			pre = append([]string{inc}, pre...)
+		case "cond":
+			pre = append([]string{".if defined(C14OTHER)", inc, ".endif"}, pre...)
+		case "for":
+			pre = append([]string{".for c14i in ${C14LIST}", inc, ".endfor"}, pre...)
+		case "after":
+			post = append(post, inc)
+		}
+	}
+	return
+}
+
+// ---------- what the lines before a condition guarantee (ground truth, independent of pkglint and of the Coq files) ----------
+
+// the files that load the user preferences when they are included (pkgsrc facts, see Spec/PrefsFile.v and docs/C14.md)
+var c14PrefsFiles = map[string]bool{"bsd.prefs.mk": true, "bsd.fast.prefs.mk": true, "bsd.builtin.mk": true, "pkgconfig-builtin.mk": true,
+	"pkg-build-options.mk": true, "compiler.mk": true, "options.mk": true, "bsd.options.mk": true}
+
+func c14ReallyLoadsPrefs(path string) bool {
+	var parts []string
+	for _, p := range strings.Split(path, "/") {
+		if p != "" {
+			parts = append(parts, p)
+		}
+	}
+	for _, p := range parts {
+		if p == "mk" {
+			return true // pkglint's standing assumption about the infrastructure, taken over as a reference fact
+		}
+	}
+	return len(parts) > 0 && c14PrefsFiles[parts[len(parts)-1]]
+}
+
+var (
+	c14ReInclude = regexp.MustCompile(`^\.[ \t]*(?:s|-)?include[ \t]+"([^"]+)"[ \t]*$`)
+	c14ReAssign  = regexp.MustCompile(`^([A-Za-z_][-+.\w]*?)[ \t]*(?:[?+:!])?=`)
+	c14ReOpen    = regexp.MustCompile(`^\.[ \t]*(?:if|ifdef|ifndef|ifmake|ifnmake|for)\b`)
+	c14ReClose   = regexp.MustCompile(`^\.[ \t]*(?:endif|endfor)\b`)
+	c14ReUndef   = regexp.MustCompile(`^\.[ \t]*undef[ \t]+([^ \t]+)[ \t]*$`)
+)
+
+// one generated line as Spec/PrefsFile.v's fline (none of the generated fragments has a multiple-inclusion guard)
+func c14Fline(line string) string {
+	if m := c14ReInclude.FindStringSubmatch(line); m != nil {
+		return "I" + hx(m[1])
+	}
+	if c14ReOpen.MatchString(line) {
+		return "O0"
+	}
+	if c14ReClose.MatchString(line) {
+		return "C"
+	}
+	if m := c14ReUndef.FindStringSubmatch(line); m != nil {
+		return "U" + hx(m[1])
+	}
+	if m := c14ReAssign.FindStringSubmatch(line); m != nil {
+		return "A" + hx(m[1])
+	}
+	return "X"
+}
+
+// the guard line of a really guarded fragment opens a level that does not count as a condition
+func (c *c14Case) fline(l string) string {
+	if c.spec.realGuard() && l == ".if !defined(C14_GUARD_MK)" {
+		return "O1"
+	}
+	return c14Fline(l)
+}
+
+// are the preferences loaded for sure when bmake reaches the line after [pre]; is there a prefs include that may or may not happen
+func c14PrefsSure(pre []string) (sure bool, conditional bool) {
+	depth := 0
+	for _, l := range pre {
+		switch {
+		case c14ReOpen.MatchString(l):
+			depth++
+		case c14ReClose.MatchString(l):
+			if depth > 0 {
+				depth--
+			}
+		default:
+			if m := c14ReInclude.FindStringSubmatch(l); m != nil && c14ReallyLoadsPrefs(m[1]) {
+				if depth == 0 {
+					sure = true
+				} else {
+					conditional = true
+				}
+			}
+		}
 	}
 	return
 }
@@ -546,22 +657,25 @@ func c14YesNoLower(p string) string {
 // ---------- one batch of conditions through the real code, the model and the spec ----------
 
 type c14Case struct {
-	spec     c14Spec
-	layer    string   // unit | wholerun
-	line     string   // the directive line holding the condition
-	pre      []string // the lines before it (after the optional bsd.prefs.mk include)
-	post     []string // the lines closing it
-	tree     *c14Node
-	v        c14Var
-	newLine  string      // what the real code made of the line
-	fixes    [][2]string // the from/to it logged
-	panicked string
-	mmn      map[string]string // pattern -> 0 err | 1 no | 2 yes
-	hasModel bool
-	model    struct {
-		newLine string
-		offered int
-		applied []c14Fix
+	spec      c14Spec
+	layer     string   // unit | wholerun
+	line      string   // the directive line holding the condition
+	pre       []string // the lines before it (after the optional bsd.prefs.mk include)
+	post      []string // the lines closing it
+	tree      *c14Node
+	v         c14Var
+	newLine   string      // what the real code made of the line
+	fixes     [][2]string // the from/to it logged
+	panicked  string
+	mmn       map[string]string // pattern -> 0 err | 1 no | 2 yes
+	prefsSure bool              // ground truth: the preferences are loaded for sure before the condition
+	condInc   bool              // ... or by an include that may or may not happen
+	hasModel  bool
+	model     struct {
+		seenPrefs, specPrefs, specCondInc, specUndef bool
+		newLine                                      string
+		offered                                      int
+		applied                                      []c14Fix
 	}
 }
 
@@ -576,6 +690,8 @@ type c14State struct {
 	distinct map[string]bool
 	cross    []c14Cross // evaluation requests kept for the extraction cross-check
 	crossN   int
+	crossF   []*c14Case // model runs (check_file_line) kept for the extraction cross-check
+	crossL   []string   // Coq examples about loads_prefs / really_loads_prefs / path_base
 }
 
 // one evaluation request and the extracted oracle's answer to it
@@ -643,15 +759,15 @@ func c14RunImpl(c *c14Case) {
 	if c.v.Kind != "none" {
 		vars = append(vars, pkglint.VerifCondVar{Name: c.v.Family, Kind: c.v.Kind, List: c.v.List, Def: c.v.Def})
 	}
-	lines := []string{""}
-	if c.spec.Prefs {
-		lines[0] = ".include \"../../mk/bsd.prefs.mk\""
-	}
-	lines = append(lines, c.pre...)
+	lines := c.before()
 	idx := len(lines)
 	lines = append(lines, c.line)
 	lines = append(lines, c.post...)
-	r := pkglint.VerifCondSimplifyLines(vars, lines, idx)
+	basename := "filename.mk"
+	if c.spec.Hacks {
+		basename = "hacks.mk"
+	}
+	r := pkglint.VerifCondSimplifyFile(vars, basename, lines, idx)
 	c.newLine, c.fixes, c.panicked = r.NewLine, r.Fixes, r.Panicked
 }
 
@@ -671,7 +787,13 @@ func (st *c14State) runCases(cases []*c14Case) {
 	// 2. the model
 	reqs := make([]string, len(cases))
 	for i, c := range cases {
-		toks := []string{"w", map[bool]string{true: "1", false: "0"}[c.spec.Prefs], hx(c.line), "1", hx(c.v.Name), c.v.flags(), fmt.Sprint(len(c.mmn))}
+		// the model reads the lines itself: SeenPrefs and vars.IsDefined are no longer inputs
+		before := c.before()
+		toks := []string{"f", map[bool]string{true: "1", false: "0"}[c.spec.Hacks], fmt.Sprint(len(before))}
+		for _, l := range before {
+			toks = append(toks, c.fline(l))
+		}
+		toks = append(toks, hx(c.line), "1", hx(c.v.Name), c.v.flags(), fmt.Sprint(len(c.mmn)))
 		for _, p := range sortedKeys(c.mmn) {
 			toks = append(toks, hx(p), c.mmn[p])
 		}
@@ -685,10 +807,12 @@ func (st *c14State) runCases(cases []*c14Case) {
 	}
 	for i, c := range cases {
 		f := strings.Fields(ans[i])
-		if len(f) < 3 || strings.HasPrefix(ans[i], "ERR") || strings.HasPrefix(ans[i], "EXC") {
-			res.Broken = "oracle w answer " + q(ans[i]) + " for " + q(c.line)
+		if len(f) < 7 || strings.HasPrefix(ans[i], "ERR") || strings.HasPrefix(ans[i], "EXC") {
+			res.Broken = "oracle f answer " + q(ans[i]) + " for " + q(c.line)
 			return
 		}
+		c.model.seenPrefs, c.model.specPrefs, c.model.specCondInc, c.model.specUndef = f[0] == "1", f[1] == "1", f[2] == "1", f[3] == "1"
+		f = f[4:]
 		c.hasModel = true
 		c.model.newLine = unhx(f[0])
 		fmt.Sscan(f[1], &c.model.offered)
@@ -701,10 +825,55 @@ func (st *c14State) runCases(cases []*c14Case) {
 		for k := 0; k < n; k++ {
 			c.model.applied = append(c.model.applied, c14Fix{f[3+4*k], unhx(f[4+4*k]), unhx(f[5+4*k]), f[6+4*k]})
 		}
+		// a sample of the model's runs for the extraction cross-check: rewritten ones, include contexts preferred
+		if len(st.crossF) < 60 && n > 0 && !c.spec.Hacks && !strings.Contains(c.line, "$$") && (c.spec.Inc != "" && i%37 == 0 || i%1499 == 0) {
+			st.crossF = append(st.crossF, c)
+		}
 	}
 	// 3. correspondence model = implementation
 	for _, c := range cases {
 		res.TracesValidated++
+		// the harness' own reading of the lines before the condition against the Coq spec's (Spec/PrefsFile.v sure_after)
+		if (c.v.Ctx == "undef-self") != c.model.specUndef {
+			res.AddViolation(Violation{Key: "C14/correspondence/ground-truth-prefs",
+				What:       fmt.Sprintf("after the lines %q the harness takes %s as touched by .undef = %v, Spec/PrefsFile.v says %v", c.before(), c.v.Name, c.v.Ctx == "undef-self", c.model.specUndef),
+				FoundInput: false, Size: len(c.line), Replay: c.replayBroken(nil, "harness ground truth = Spec.PrefsFile.sure_after su_undef")})
+		}
+		if c.v.Ctx == "undef-self" {
+			res.Count("undef_after_assignment_cases", 1)
+		}
+		if c.spec.realGuard() {
+			res.Count("guarded_fragment_cases", 1)
+			if c.newLine != c.line && !strings.Contains(c.newLine, ":U") {
+				res.Count("guarded_fragment_rewritten_without_U", 1)
+			}
+		}
+		if c.spec.Hacks {
+			res.Count("hacks_mk_cases", 1)
+		} else if c.prefsSure != c.model.specPrefs || c.condInc != c.model.specCondInc {
+			res.AddViolation(Violation{Key: "C14/correspondence/ground-truth-prefs",
+				What: fmt.Sprintf("after the lines %q the harness takes the preferences as loaded for sure = %v (conditionally = %v), Spec/PrefsFile.v says %v (%v)",
+					c.before(), c.prefsSure, c.condInc, c.model.specPrefs, c.model.specCondInc),
+				FoundInput: false, Size: len(c.line), Replay: c.replayBroken(nil, "harness ground truth c14PrefsSure = Spec.PrefsFile.sure_after")})
+		}
+		if c.spec.Inc != "" {
+			res.Count("include_context_cases", 1)
+			res.Count("include_"+strings.SplitN(c.spec.Inc, "|", 2)[0]+map[bool]string{true: "_loads", false: "_nearmiss"}[c14ReallyLoadsPrefs(strings.SplitN(c.spec.Inc, "|", 2)[1])], 1)
+		}
+		switch {
+		case c.spec.Hacks:
+			res.Count("seenprefs_hacks_mk_"+c14CoqBool(c.model.seenPrefs), 1)
+		case c.model.seenPrefs && c.model.specPrefs:
+			res.Count("seenprefs_and_really_loaded", 1)
+		case c.model.seenPrefs && c.model.specCondInc:
+			res.Count("seenprefs_by_conditional_include", 1)
+		case c.model.seenPrefs:
+			res.Count("seenprefs_but_not_loaded", 1) // the model of the code says loaded, the reference says no (a widened table)
+		case c.model.specPrefs:
+			res.Count("loaded_but_not_seenprefs", 1) // harmless direction: a superfluous :U
+		default:
+			res.Count("seenprefs_no", 1)
+		}
 		if strings.Contains(c.spec.Pat, "$") {
 			res.Count("nested_pattern_cases", 1)
 			if c.newLine == c.line {
@@ -785,7 +954,15 @@ func c14FromShape(from string) (bare bool, positive bool, pat string) {
 // the root cause a counterexample is filed under (the narrow key)
 func (st *c14State) cause(c *c14Case, kind, from string, v *string, n byte) string {
 	vc := c14ValClass(v, st.num)
-	if v == nil && n == 'M' && c.v.Ctx == "cond-self" && kind != "and" {
+	if v == nil && n == 'M' && c.condInc && !c.prefsSure && kind != "and" {
+		// Tools.SeenPrefs is set by an include inside a conditional block, which may or may not happen
+		return kind + "/undefined/conditional-include"
+	}
+	if v == nil && n == 'M' && c.v.Ctx == "undef-self" && kind != "and" {
+		// vars.IsDefined still knows a variable that an .undef has removed
+		return kind + "/undefined/undef-after-assignment"
+	}
+	if v == nil && n == 'M' && (c.v.Ctx == "cond-self" || c.v.Ctx == "for-self") && c.spec.Inc == "" && kind != "and" {
 		// isDefined takes an assignment inside a conditional block as a guarantee
 		return kind + "/undefined/conditional-assignment"
 	}
@@ -841,7 +1018,7 @@ func (st *c14State) judge(cases []*c14Case) {
 		st.distinct[c.line] = true
 		// values: the pool, plus numeric words found for patterns with mayMatchNumber = no
 		var vals []*string
-		if c.v.mayBeUndefined(c.spec.Prefs) {
+		if c.v.mayBeUndefined(c.prefsSure) {
 			vals = append(vals, nil)
 		}
 		pool := c14Values
@@ -955,8 +1132,8 @@ func (st *c14State) judge(cases []*c14Case) {
 				if len(c.pre) > 0 {
 					what = fmt.Sprintf("after the lines %q, %s", c.pre, what)
 				}
-				if !c.spec.Prefs {
-					what += " (bsd.prefs.mk not included)"
+				if !c.prefsSure {
+					what += " (the preferences are not loaded for sure at that line: " + map[bool]string{true: "the include that loads them may or may not happen", false: "no earlier include loads them"}[c.condInc] + ")"
 				}
 				if c.layer == "wholerun" {
 					what = "pkglint -F: " + what
@@ -1012,7 +1189,30 @@ func (c *c14Case) replayBroken(v *string, what string) map[string]any {
 func c14NewCase(s c14Spec) *c14Case {
 	cond, tree := s.build()
 	pre, line, post := s.context(cond)
-	return &c14Case{spec: s, layer: "unit", line: line, pre: pre, post: post, tree: tree, v: s.variable()}
+	c := &c14Case{spec: s, layer: "unit", line: line, pre: pre, post: post, tree: tree, v: s.variable()}
+	if s.realGuard() {
+		c.v.Ctx = "really-guarded" // assigned for sure: the guard's condition holds whenever the file is read
+	}
+	c.prefsSure, c.condInc = c14PrefsSure(c.before())
+	if s.Hacks {
+		// mk/bsd.hacks.mk, which reads the package's hacks.mk, is included by bsd.pkg.mk after bsd.prefs.mk
+		c.prefsSure = true
+	}
+	return c
+}
+
+// findGuardLine: the .if !defined(X) is the file's multiple-inclusion guard iff it is the only statement of the file
+func (s c14Spec) realGuard() bool {
+	return s.Ctx == "guarded" && !s.Prefs && s.Inc == ""
+}
+
+// the lines of the generated fragment before the condition (after the CVS id line)
+func (c *c14Case) before() []string {
+	first := ""
+	if c.spec.Prefs {
+		first = ".include \"../../mk/bsd.prefs.mk\""
+	}
+	return append([]string{first}, c.pre...)
 }
 
 var c14ReDirective = regexp.MustCompile(`^\.[ \t]*(?:el)?if[ \t]+`)
@@ -1051,7 +1251,7 @@ func c14Exhaustive(thorough bool) []c14Spec {
 				for _, pos := range []bool{true, false} {
 					for _, pre := range prefixes {
 						for _, f := range forms {
-							add(c14Spec{"plain", f, p, pos, pre, k.tag, cb.def, cb.prefs, 0, "", ""})
+							add(c14Spec{"plain", f, p, pos, pre, k.tag, cb.def, cb.prefs, 0, "", "", "", false})
 						}
 					}
 				}
@@ -1068,7 +1268,7 @@ func c14Exhaustive(thorough bool) []c14Spec {
 							continue
 						}
 						for _, f := range forms {
-							add(c14Spec{"plain", f, p, pos, pre, k.tag, def, true, 0, "", ""})
+							add(c14Spec{"plain", f, p, pos, pre, k.tag, def, true, 0, "", "", "", false})
 						}
 					}
 				}
@@ -1079,8 +1279,8 @@ func c14Exhaustive(thorough bool) []c14Spec {
 	for _, k := range c14Kinds {
 		for _, def := range []string{"D", "U"} {
 			for _, f := range forms {
-				add(c14Spec{"plain", f, "", true, "-", k.tag, def, true, 0, "", ""})
-				add(c14Spec{"defined-and", f, "", true, "-", k.tag, def, true, 0, "", ""})
+				add(c14Spec{"plain", f, "", true, "-", k.tag, def, true, 0, "", "", "", false})
+				add(c14Spec{"defined-and", f, "", true, "-", k.tag, def, true, 0, "", "", "", false})
 			}
 		}
 	}
@@ -1093,10 +1293,10 @@ func c14Exhaustive(thorough bool) []c14Spec {
 				for _, p := range []string{"alpha", "0", "al*", "[0-9]*", "[yY][eE][sS]", "", "${C14LV}*", "${C14LV}"} {
 					for _, pos := range []bool{true, false} {
 						for _, f := range forms {
-							add(c14Spec{sh, f, p, pos, "", tag, def, true, 0, "", ""})
+							add(c14Spec{sh, f, p, pos, "", tag, def, true, 0, "", "", "", false})
 							if sh == "defined-and" {
 								// a default value in :U makes the expression non-empty although the variable is undefined
-								add(c14Spec{sh, f, p, pos, "Ualpha", tag, def, true, 0, "", ""})
+								add(c14Spec{sh, f, p, pos, "Ualpha", tag, def, true, 0, "", "", "", false})
 							}
 						}
 					}
@@ -1110,7 +1310,7 @@ func c14Exhaustive(thorough bool) []c14Spec {
 		for _, cb := range []struct {
 			def   string
 			prefs bool
-		}{{"U", true}, {"P", true}, {"P", false}, {"D", true}, {"N", true}} {
+		}{{"U", true}, {"P", true}, {"P", false}, {"D", true}, {"N", true}, {"U", false}} {
 			if (cb.def == "D" || cb.def == "N") && tag != "YN" && tag != "EA" {
 				continue
 			}
@@ -1119,9 +1319,53 @@ func c14Exhaustive(thorough bool) []c14Spec {
 					for _, p := range []string{"alpha", "[nN][oO]", "al*", "0", "[0-9]*"} {
 						for _, pos := range []bool{true, false} {
 							for _, f := range forms {
-								add(c14Spec{"plain", f, p, pos, "", tag, cb.def, cb.prefs, 0, param, cx})
+								add(c14Spec{"plain", f, p, pos, "", tag, cb.def, cb.prefs, 0, param, cx, "", false})
 							}
 						}
+					}
+				}
+			}
+		}
+	}
+	// what feeds Tools.SeenPrefs: an .include of every file name LoadsPrefs knows and of near misses,
+	// before the condition / before it inside a conditional block / after it
+	for _, inc := range c14IncludeContexts() {
+		_, path, _ := strings.Cut(inc, "|")
+		few := path == "../../mk/bsd.prefs.mk" || path == "../../devel/libfoo/buildlink3.mk" || path == "options.mk" || path == "../../devel/libfoo/Makefile.common"
+		for _, tag := range []string{"EA", "YN", "ID"} {
+			for _, def := range []string{"P", "U", "D"} {
+				if def != "P" && !few {
+					continue
+				}
+				for _, p := range []string{"alpha", "[nN][oO]", "al*"} {
+					for _, pos := range []bool{true, false} {
+						if !pos && p != "alpha" {
+							continue
+						}
+						for _, f := range forms {
+							add(c14Spec{Shape: "plain", Form: f, Pat: p, Positive: pos, Tag: tag, Def: def, Inc: inc})
+						}
+					}
+				}
+			}
+		}
+		// together with the other things that feed isDefined
+		if few {
+			for _, cx := range []string{"self=", "sibling", "nested", "cond-self"} {
+				for _, f := range forms {
+					add(c14Spec{Shape: "plain", Form: f, Pat: "alpha", Positive: true, Tag: "EA", Def: "P", Param: "foo", Ctx: cx, Inc: inc})
+					add(c14Spec{Shape: "defined-and", Form: f, Pat: "alpha", Positive: true, Tag: "YN", Def: "P", Ctx: cx, Inc: inc})
+				}
+			}
+		}
+	}
+	// a hacks.mk: SeenPrefs from the first line on, with and without includes
+	for _, inc := range []string{"", "before|../../devel/libfoo/buildlink3.mk", "after|../../mk/bsd.prefs.mk"} {
+		for _, tag := range []string{"EA", "YN", "ID"} {
+			for _, def := range []string{"P", "U", "D", "L"} {
+				for _, p := range []string{"alpha", "[nN][oO]", "al*"} {
+					for _, f := range forms {
+						add(c14Spec{Shape: "plain", Form: f, Pat: p, Positive: true, Tag: tag, Def: def, Inc: inc, Hacks: true})
 					}
 				}
 			}
@@ -1133,11 +1377,37 @@ func c14Exhaustive(thorough bool) []c14Spec {
 			for _, cx := range c14Contexts {
 				for _, p := range []string{"alpha", "[nN][oO]", "al*"} {
 					for _, f := range forms {
-						add(c14Spec{sh, f, p, true, "", tag, "U", true, 0, "foo", cx})
+						add(c14Spec{sh, f, p, true, "", tag, "U", true, 0, "foo", cx, "", false})
 					}
 				}
 			}
 		}
+	}
+	return out
+}
+
+// the included files: every basename LoadsPrefs knows (in its usual place and elsewhere), files below mk/,
+// and near misses (fragments of package directories, names that only resemble a prefs file)
+var c14IncludePaths = []string{
+	"../../mk/bsd.prefs.mk", "../../mk/bsd.fast.prefs.mk", "../../mk/buildlink3/bsd.builtin.mk", "../../mk/buildlink3/pkgconfig-builtin.mk",
+	"../../mk/pkg-build-options.mk", "../../mk/compiler.mk", "../../mk/bsd.options.mk", "options.mk", "../../devel/libfoo/options.mk",
+	"bsd.prefs.mk", "../../devel/libfoo/compiler.mk", "../../mk/fetch/sites.mk", "../../wip/mk/git-package.mk", "../../devel/mk/buildlink3.mk",
+	// near misses
+	"../../devel/libfoo/buildlink3.mk", "../../devel/libfoo/builtin.mk", "../../devel/libfoo/Makefile.common", "Makefile.common",
+	"../../devel/libfoo/version.mk", "../../lang/python/pyversion.mk", "../../devel/cmake/build.mk", "../../devel/libfoo/my-options.mk",
+	"../../devel/libfoo/options.mk.in", "../../devel/libfoo/xbsd.prefs.mk", "../../devel/libfoo/bsd.prefs.mk.orig", "../../devel/libfoo/prefs.mk",
+	"../../devel/mkfoo/hacks.mk", "../../devel/libfoo/mk.conf", "hacks.mk", "../../x11/modular-xorg-server/buildlink3.mk",
+}
+
+func c14IncludeContexts() []string {
+	var out []string
+	for _, where := range []string{"before", "cond", "after"} {
+		for _, p := range c14IncludePaths {
+			out = append(out, where+"|"+p)
+		}
+	}
+	for _, p := range []string{"../../mk/bsd.prefs.mk", "../../devel/libfoo/buildlink3.mk", "options.mk", "../../devel/libfoo/Makefile.common"} {
+		out = append(out, "for|"+p)
 	}
 	return out
 }
@@ -1156,12 +1426,16 @@ func c14Random(rng *Rng, n int) []c14Spec {
 		k := Pick(rng, c14Kinds)
 		s := c14Spec{Pick(rng, shapes), Pick(rng, []string{"bare", "not-bare", "empty", "not-empty"}), sb.String(), !rng.Chance(25),
 			Pick(rng, []string{"", "", "tl", "U"}), k.tag, cb.def, cb.prefs, 0,
-			Pick(rng, []string{"", "", "foo", "x11"}), Pick(rng, append([]string{"", "", ""}, c14Contexts...))}
+			Pick(rng, []string{"", "", "foo", "x11"}), Pick(rng, append([]string{"", "", ""}, c14Contexts...)), "", false}
 		if s.Def == "F" {
 			s.Def, s.Ctx = "U", "self="
 		}
 		if s.Tag == "NT" {
 			s.Def = "U"
+		}
+		if rng.Chance(30) {
+			s.Prefs = false
+			s.Inc = Pick(rng, c14IncludeContexts())
 		}
 		if s.Shape == "quoted" && strings.ContainsAny(s.Pat, "<=>") {
 			// the replacement lands inside the quotes (known finding C14/*/quoted-term); with an
@@ -1243,6 +1517,105 @@ func c14CoqOpt(v *string) string {
 	return "(Some " + c09CoqStr(*v) + ")"
 }
 
+func (n *c14Node) coq() string {
+	kids := func() string {
+		parts := make([]string, len(n.Kids))
+		for i, k := range n.Kids {
+			parts[i] = k.coq()
+		}
+		return "[" + strings.Join(parts, "; ") + "]"
+	}
+	mods := func() string {
+		parts := make([]string, len(n.Mods))
+		for i, m := range n.Mods {
+			parts[i] = c09CoqStr(m)
+		}
+		return "[" + strings.Join(parts, "; ") + "]"
+	}
+	switch n.K {
+	case 'O':
+		return "(MOr " + kids() + ")"
+	case 'A':
+		return "(MAnd " + kids() + ")"
+	case 'N':
+		return "(MNot " + n.Kids[0].coq() + ")"
+	case 'P':
+		return "(MParen " + n.Kids[0].coq() + ")"
+	case 'D':
+		return "(MDefined " + c09CoqStr(n.Var) + ")"
+	case 'E':
+		return "(MEmpty " + c09CoqStr(n.Var) + " " + mods() + ")"
+	case 'T', 'Q':
+		return "(MTerm " + c09CoqStr(n.Var) + " " + mods() + ")"
+	}
+	return "MOther"
+}
+
+func c14CoqFline(tok string) string {
+	switch {
+	case tok == "C":
+		return "FClose"
+	case tok == "X":
+		return "FOther"
+	case tok == "O0":
+		return "FOpen false"
+	case tok == "O1":
+		return "FOpen true"
+	case tok[0] == 'I':
+		return "FInclude " + c09CoqStr(unhx(tok[1:]))
+	case tok[0] == 'U':
+		return "FUndef " + c09CoqStr(unhx(tok[1:]))
+	}
+	return "FAssign " + c09CoqStr(unhx(tok[1:]))
+}
+
+func c14CoqBool(b bool) string {
+	if b {
+		return "true"
+	}
+	return "false"
+}
+
+// the model's own run (check_file_line = scan + file_ctx + check_line: walk, the three simplifiers, checkAnd,
+// Autofix.Replace) and the spec's reading of the lines, as Coq examples against the extracted oracle's answers
+func (st *c14State) crossFileCases(sb *strings.Builder) int {
+	n := 0
+	for i, c := range st.crossF {
+		var fl []string
+		for _, l := range c.before() {
+			fl = append(fl, c14CoqFline(c.fline(l)))
+		}
+		fg := c.v.flags()
+		var vi []string
+		for k := 0; k < 8; k++ {
+			vi = append(vi, c14CoqBool(fg[k] == '1'))
+		}
+		mm := "MmnErr"
+		for _, p := range sortedKeys(c.mmn) {
+			mm = fmt.Sprintf("if str_eqb p %s then %s else %s", c09CoqStr(p), map[string]string{"0": "MmnErr", "1": "MmnNo", "2": "MmnYes"}[c.mmn[p]], mm)
+		}
+		var fixes []string
+		for _, a := range c.model.applied {
+			fixes = append(fixes, "("+map[string]string{"word": "KWord", "yesno": "KYesNo", "match": "KMatch", "and": "KAnd"}[a.kind]+", "+c09CoqStr(a.from)+", "+c09CoqStr(a.to)+")")
+		}
+		fmt.Fprintf(sb, "Definition f_pre_%d : list fline := [%s].\n", i, strings.Join(fl, "; "))
+		fmt.Fprintf(sb, "Definition f_decl_%d : str -> varinfo := fun n => if str_eqb n %s then mkvarinfo %s else mkvarinfo false false false false false false false false.\n",
+			i, c09CoqStr(c.v.Name), strings.Join(vi, " "))
+		fmt.Fprintf(sb, "Definition f_mmn_%d : str -> mmn := fun p => %s.\n", i, mm)
+		fmt.Fprintf(sb, "Definition f_line_%d : str := %s.\nDefinition f_tree_%d : mkcond := %s.\n", i, c09CoqStr(c.line), i, c.tree.coq())
+		fmt.Fprintf(sb, "Example fcase_%d : (fs_seen_prefs (scan (init_state false) f_pre_%d), su_prefs (sure_after f_pre_%d), conditional_prefs_include (mksure false [] [] []) f_pre_%d,\n"+
+			"  let (nl, applied) := check_file_line f_decl_%d f_mmn_%d false f_pre_%d f_line_%d f_tree_%d in (nl, map (fun rw => (rw_kind rw, rw_from rw, rw_to rw)) applied))\n"+
+			"  = (%s, %s, %s, (%s, [%s])).\nProof. vm_compute. reflexivity. Qed.\n",
+			i, i, i, i, i, i, i, i, i, c14CoqBool(c.model.seenPrefs), c14CoqBool(c.model.specPrefs), c14CoqBool(c.model.specCondInc), c09CoqStr(c.model.newLine), strings.Join(fixes, "; "))
+		n++
+	}
+	for _, l := range st.crossL {
+		sb.WriteString(l)
+		n++
+	}
+	return n
+}
+
 // c14CrossCheckExtraction re-evaluates up to 160 of the oracle's evaluation requests
 // (the spec's reader and evaluator incl. expand_pat / env_of, as extracted to OCaml)
 // and a fixed set of pattern expansions with coqc's vm_compute on the Gallina definitions.
@@ -1250,8 +1623,9 @@ func (st *c14State) c14CrossCheckExtraction() {
 	ctx, res := st.ctx, st.res
 	tri := map[byte]string{'T': "Some TTrue", 'F': "Some TFalse", 'M': "Some TMalformed", 'X': "None"}
 	var sb strings.Builder
-	sb.WriteString("From PV Require Import Lib.Bytes Spec.BmakeCond.\nOpen Scope N_scope.\n")
-	n := 0
+	sb.WriteString("From PV Require Import Lib.Bytes Spec.BmakeCond Spec.PrefsFile Model.CondSimp Model.CondFile.\nOpen Scope N_scope.\n")
+	n := st.crossFileCases(&sb)
+	res.Count("vm_compute_cross_checked_model_runs", len(st.crossF))
 	for i, c := range st.cross {
 		pairs := strings.Fields(c.answer)
 		if len(pairs) != len(c.values) {
@@ -1443,17 +1817,17 @@ func (st *c14State) wholeRunCases(cases []*c14Case, tag string) {
 	outb, _ := cmd.CombinedOutput()
 	after, err := os.ReadFile(target)
 	if err != nil {
-		res.Broken = "whole-run: " + err.Error()
+		st.implBroke("whole-run: the rewritten file cannot be read back: " + err.Error())
 		return
 	}
 	if strings.Contains(string(outb), "FATAL") || strings.Contains(string(outb), "panic: ") || strings.Contains(string(outb), "goroutine ") {
-		res.Broken = "whole-run: pkglint failed on the generated tree: " + string(outb)
+		st.implBroke("whole-run: pkglint failed on the generated tree: " + string(outb))
 		return
 	}
 	alines := strings.Split(string(after), "\n")
 	for ln, c := range lineOf {
 		if ln-1 >= len(alines) || !c14ReDirective.MatchString(alines[ln-1]) {
-			res.Broken = fmt.Sprintf("whole-run: line %d of the rewritten file is not an .if line", ln)
+			st.implBroke(fmt.Sprintf("whole-run: line %d of the rewritten file is not an .if line", ln))
 			return
 		}
 		c.newLine = alines[ln-1]
@@ -1533,6 +1907,363 @@ func (st *c14State) wholeRun(rng *Rng, nfiles, perFile int) {
 	}
 }
 
+// a failure of the whole-run machinery that the implementation under test caused (the binary died, the rewritten file
+// lost a line): a broken correspondence, reported as a violation without a failing input -- never res.Broken (exit 2)
+func (st *c14State) implBroke(what string) {
+	if len(what) > 1500 {
+		what = what[:1500]
+	}
+	st.res.AddViolation(Violation{Key: "C14/wholerun/pkglint-failed", What: what, FoundInput: false,
+		Replay: map[string]any{"broken": "whole run of the real binary on the generated tree", "detail": what}})
+}
+
+// ---------- LoadsPrefs: real code = model (Model/CondFile.v loads_prefs), model within the reference (Spec/PrefsFile.v) ----------
+
+// every relative path of <= 6 bytes over { / . m k a } (what Base and ContainsPath("mk") can tell apart), the include
+// pool, and every table/near-miss basename under a few directory shapes
+func c14LoadsPrefsPaths() []string {
+	var out []string
+	alpha := "/.mka"
+	var rec func(prefix string, n int)
+	rec = func(prefix string, n int) {
+		if prefix != "" {
+			out = append(out, prefix)
+		}
+		if n == 0 {
+			return
+		}
+		for i := 0; i < len(alpha); i++ {
+			if prefix == "" && alpha[i] == '/' {
+				continue // MatchMkInclude refuses absolute paths (NewRelPath asserts)
+			}
+			rec(prefix+string(alpha[i]), n-1)
+		}
+	}
+	rec("", 6)
+	out = append(out, c14IncludePaths...)
+	names := []string{"buildlink3.mk", "builtin.mk", "Makefile.common", "Makefile", "version.mk", "hacks.mk", "mk", "mk.mk", "prefs.mk", "bsd.mk", "bsd.pkg.mk",
+		"options.mk.in", "my-options.mk", "xoptions.mk", "compiler.mk.orig", "bsd.prefs.mk~", "Bsd.Prefs.Mk", "bsd.prefs.mk ", "bsd-prefs.mk", "pkg-build-options", "builtin-pkgconfig.mk"}
+	for n := range c14PrefsFiles {
+		names = append(names, n)
+	}
+	sort.Strings(names)
+	for _, n := range names {
+		for _, d := range []string{"", "../../mk/", "../../devel/libfoo/", "./", "../", "../../mk/buildlink3/", "mk/", "../../devel/cmake/", "../../devel/mk/", "../../devel/libfoo//", "../../devel/mkx/", "../../devel/xmk/", "../../devel/.mk/", "../../devel/mk./"} {
+			out = append(out, d+n, d+n+"/", d+n+"/.")
+		}
+	}
+	return out
+}
+
+func (st *c14State) checkLoadsPrefs() {
+	res := st.res
+	paths := c14LoadsPrefsPaths()
+	reqs := make([]string, len(paths))
+	for i, p := range paths {
+		reqs[i] = "l " + hx(p)
+	}
+	ans, err := runOracle(st.ctx, "c14", reqs)
+	if err != nil {
+		res.Broken = err.Error()
+		return
+	}
+	for i, p := range paths {
+		f := strings.Fields(ans[i])
+		if len(f) != 3 {
+			res.Broken = "oracle l answer " + q(ans[i])
+			return
+		}
+		model, spec, mbase := f[0] == "1", f[1] == "1", unhx(f[2])
+		impl, ibase, panicked := pkglint.VerifLoadsPrefs14(p)
+		res.TracesValidated++
+		rep := map[string]any{"kind": "loadsprefs", "path": hx(p)}
+		switch {
+		case panicked != "":
+			rep["broken"] = "LoadsPrefs panics"
+			res.AddViolation(Violation{Key: "C14/correspondence/loads-prefs/panic", What: fmt.Sprintf("LoadsPrefs(%q) panics: %s", p, panicked), FoundInput: false, Size: len(p), Replay: rep})
+		case impl != model || ibase != mbase:
+			rep["broken"] = "correspondence LoadsPrefs / Path.Base = Model.CondFile.loads_prefs / path_base"
+			res.AddViolation(Violation{Key: "C14/correspondence/loads-prefs", What: fmt.Sprintf("LoadsPrefs(%q) = %v (Base %q), the model says %v (path_base %q)", p, impl, ibase, model, mbase),
+				FoundInput: false, Size: len(p), Replay: rep})
+		case spec != c14ReallyLoadsPrefs(p):
+			rep["broken"] = "harness ground truth c14ReallyLoadsPrefs = Spec.PrefsFile.really_loads_prefs"
+			res.AddViolation(Violation{Key: "C14/correspondence/ground-truth-prefs", What: fmt.Sprintf("really_loads_prefs(%q) = %v in Spec/PrefsFile.v, the harness says %v", p, spec, !spec),
+				FoundInput: false, Size: len(p), Replay: rep})
+		case impl && !spec:
+			// the theorem C14_loads_prefs_within_reference is about all paths, so this cannot happen while the proofs build
+			rep["broken"] = "LoadsPrefs accepts a file outside the reference list of Spec/PrefsFile.v"
+			res.AddViolation(Violation{Key: "C14/loads-prefs/outside-reference", What: fmt.Sprintf("LoadsPrefs(%q) = true, but including that file does not load the preferences (Spec/PrefsFile.v)", p),
+				FoundInput: false, Size: len(p), Replay: rep})
+		}
+		if len(st.crossL) < 40 && (i%431 == 0 || i >= len(paths)-12) {
+			st.crossL = append(st.crossL, fmt.Sprintf("Example lcase_%d : (loads_prefs %s, really_loads_prefs %s, path_base %s) = (%s, %s, %s).\nProof. vm_compute. reflexivity. Qed.\n",
+				i, c09CoqStr(p), c09CoqStr(p), c09CoqStr(p), c14CoqBool(model), c14CoqBool(spec), c09CoqStr(mbase)))
+		}
+		switch {
+		case impl:
+			res.Count("loadsprefs_true", 1)
+		case spec:
+			res.Count("loadsprefs_false_but_reference_true", 1)
+		default:
+			res.Count("loadsprefs_false", 1)
+		}
+	}
+}
+
+// ---------- whole runs: includes before / after conditions, in fragments and in a package Makefile ----------
+
+var c14IncVars = []struct {
+	name, pat string
+	always    bool // vardefs.go: AlwaysInScope
+}{
+	{"OPSYS", "NetBSD", false}, {"PKGPATH", "cat/pkg", false}, {"X11_TYPE", "native", false}, {"MACHINE_ARCH", "x86_64", true},
+	{"OS_VARIANT", "SmartOS", false}, {"PKG_OPTIONS", "opt", false}, {"LOWER_OPSYS", "netbsd", false}, {"OS_VERSION", "10", false},
+}
+
+type c14IncCond struct {
+	file   string
+	lineno int
+	name   string
+	line   string
+	sure   bool // the preferences are loaded for sure at that line
+	cond   bool // by an include that may or may not happen
+	always bool
+}
+
+func (st *c14State) wholeRunIncludes(rng *Rng, tag string) {
+	res := st.res
+	ctx := st.ctx
+	root := filepath.Join(ctx.Work, "c14inctree"+tag)
+	if err := c14WriteTree(root, "# $"+"NetBSD$\n"); err != nil {
+		res.Broken = "whole-run includes: " + err.Error()
+		return
+	}
+	defer os.RemoveAll(root)
+	id := "# $" + "NetBSD$\n"
+	// the included files exist (empty fragments), so that nothing but the names matters
+	for _, p := range c14IncludePaths {
+		full := filepath.Join(root, "cat/pkg", p)
+		if _, err := os.Stat(full); err != nil {
+			if err := c14WriteFile(full, id); err != nil {
+				res.Broken = "whole-run includes: " + err.Error()
+				return
+			}
+		}
+	}
+	forms := []string{".if !empty(%s:M%s)", ".if empty(%s:M%s)", ".if ${%s:M%s}", ".if !empty(%s:M[yY][eE][sS])", ".if !empty(%s:M*%s)", ".if !${%s:M%s}"}
+	var conds []*c14IncCond
+	byLine := map[string]*c14IncCond{}
+	var files []string
+	build := func(file string, header []string, path string, where string, footer []string) {
+		lines := append([]string{}, header...)
+		var before []string
+		emit := func(n int) {
+			for k := 0; k < n; k++ {
+				v := Pick(rng, c14IncVars)
+				form := Pick(rng, forms)
+				if file == "hacks.mk" {
+					v, form = c14IncVars[2*(k%2)], forms[k%2] // OPSYS, X11_TYPE: DefinedIfInScope, usable at load time
+				}
+				var l string
+				if strings.Count(form, "%s") == 2 {
+					l = fmt.Sprintf(form, v.name, v.pat)
+				} else {
+					l = fmt.Sprintf(form, v.name)
+				}
+				sure, cnd := c14PrefsSure(before)
+				if file == "hacks.mk" {
+					sure = true // read through mk/bsd.hacks.mk, which bsd.pkg.mk includes after bsd.prefs.mk
+				}
+				c := &c14IncCond{file: file, lineno: len(lines) + 1, name: v.name, line: l, sure: sure, cond: cnd, always: v.always}
+				conds = append(conds, c)
+				byLine[fmt.Sprintf("%s:%d", file, c.lineno)] = c
+				lines = append(lines, l, ".endif")
+				before = append(before, l, ".endif")
+			}
+		}
+		emit(2)
+		inc := ".include \"" + path + "\""
+		if where == "cond" {
+			lines = append(lines, ".if defined(C14OTHER)", inc, ".endif")
+			before = append(before, ".if defined(C14OTHER)", inc, ".endif")
+		} else {
+			lines = append(lines, inc)
+			before = append(before, inc)
+		}
+		emit(3)
+		lines = append(lines, footer...)
+		if err := c14WriteFile(filepath.Join(root, "cat/pkg", file), strings.Join(lines, "\n")+"\n"); err != nil {
+			res.Broken = "whole-run includes: " + err.Error()
+		}
+		files = append(files, file)
+	}
+	for i, p := range c14IncludePaths {
+		where := "before"
+		if i%5 == 4 {
+			where = "cond"
+		}
+		build(fmt.Sprintf("c14inc%02d.mk", i), []string{"# $" + "NetBSD$", ""}, p, where, nil)
+	}
+	build("hacks.mk", []string{"# $" + "NetBSD$", ""}, "../../devel/libfoo/buildlink3.mk", "before", nil)
+	if res.Broken != "" {
+		return
+	}
+	cmd := exec.Command(ctx.Pkglint, append([]string{"-Wall", "-F"}, files...)...)
+	cmd.Dir = filepath.Join(root, "cat/pkg")
+	outb, _ := cmd.CombinedOutput()
+	if strings.Contains(string(outb), "FATAL") || strings.Contains(string(outb), "panic: ") || strings.Contains(string(outb), "goroutine ") {
+		st.implBroke("whole-run includes: pkglint failed on the generated tree: " + string(outb))
+		return
+	}
+	st.judgeIncludes(root, conds)
+}
+
+// the package Makefile of the Appendix-A tree with conditions before and after an include
+func (st *c14State) wholeRunMakefiles(rng *Rng, tag string) {
+	res := st.res
+	ctx := st.ctx
+	paths := []string{"../../mk/bsd.prefs.mk", "../../devel/libfoo/buildlink3.mk", "options.mk", "../../devel/libfoo/Makefile.common", "../../mk/compiler.mk", "../../devel/libfoo/builtin.mk"}
+	for i, p := range paths {
+		if res.Broken != "" {
+			return
+		}
+		root := filepath.Join(ctx.Work, fmt.Sprintf("c14mktree%s_%d", tag, i))
+		if err := c14WriteTree(root, "# $"+"NetBSD$\n"); err != nil {
+			res.Broken = "whole-run makefiles: " + err.Error()
+			return
+		}
+		id := "# $" + "NetBSD$\n"
+		for _, ip := range c14IncludePaths {
+			full := filepath.Join(root, "cat/pkg", ip)
+			if _, err := os.Stat(full); err != nil {
+				c14WriteFile(full, id)
+			}
+		}
+		header := []string{"# $" + "NetBSD$", "", "DISTNAME=\tpkg-1.0", "CATEGORIES=\tcat", "MASTER_SITES=\t# none", "",
+			"MAINTAINER=\tpkgsrc-users@NetBSD.org", "HOMEPAGE=\t# none", "COMMENT=\tDummy package", "LICENSE=\t2-clause-bsd", ""}
+		lines := append([]string{}, header...)
+		var before []string
+		var conds []*c14IncCond
+		emit := func(n int) {
+			for k := 0; k < n; k++ {
+				v := Pick(rng, c14IncVars[:4])
+				l := fmt.Sprintf(Pick(rng, []string{".if !empty(%s:M%s)", ".if empty(%s:M%s)", ".if ${%s:M%s}"}), v.name, v.pat)
+				sure, cnd := c14PrefsSure(before)
+				conds = append(conds, &c14IncCond{file: "Makefile", lineno: len(lines) + 1, name: v.name, line: l, sure: sure, cond: cnd, always: v.always})
+				lines = append(lines, l, ".endif")
+				before = append(before, l, ".endif")
+			}
+		}
+		emit(2)
+		lines = append(lines, ".include \""+p+"\"")
+		before = append(before, ".include \""+p+"\"")
+		emit(2)
+		lines = append(lines, "", ".include \"../../mk/bsd.pkg.mk\"")
+		if err := c14WriteFile(filepath.Join(root, "cat/pkg/Makefile"), strings.Join(lines, "\n")+"\n"); err != nil {
+			res.Broken = "whole-run makefiles: " + err.Error()
+			return
+		}
+		cmd := exec.Command(ctx.Pkglint, "-Wall", "-F")
+		cmd.Dir = filepath.Join(root, "cat/pkg")
+		outb, _ := cmd.CombinedOutput()
+		if strings.Contains(string(outb), "FATAL") || strings.Contains(string(outb), "panic: ") || strings.Contains(string(outb), "goroutine ") {
+			st.implBroke("whole-run makefiles: pkglint failed on the generated tree: " + string(outb))
+			os.RemoveAll(root)
+			return
+		}
+		st.judgeIncludes(root, conds)
+		os.RemoveAll(root)
+	}
+}
+
+// read the rewritten files back and evaluate original against rewritten condition; the variable may be undefined
+// unless the preferences are loaded for sure (or it is AlwaysInScope)
+func (st *c14State) judgeIncludes(root string, conds []*c14IncCond) {
+	res := st.res
+	cache := map[string][]string{}
+	var reqs []string
+	var asked []*c14IncCond
+	var news []string
+	for _, c := range conds {
+		ls, ok := cache[c.file]
+		if !ok {
+			b, err := os.ReadFile(filepath.Join(root, "cat/pkg", c.file))
+			if err != nil {
+				st.implBroke("whole-run includes: the rewritten file cannot be read back: " + err.Error())
+				return
+			}
+			ls = strings.Split(string(b), "\n")
+			cache[c.file] = ls
+		}
+		if c.lineno-1 >= len(ls) || !c14ReDirective.MatchString(ls[c.lineno-1]) {
+			st.implBroke(fmt.Sprintf("whole-run includes: line %d of the rewritten %s is not an .if line", c.lineno, c.file))
+			return
+		}
+		nl := ls[c.lineno-1]
+		res.Count("wholerun_include_conditions", 1)
+		if nl == c.line {
+			res.Count("wholerun_include_unchanged", 1)
+			continue
+		}
+		res.Count("wholerun_include_rewritten", 1)
+		if !strings.Contains(nl, ":U") && !c.always {
+			res.Count("wholerun_include_rewritten_without_U", 1)
+			if c.file == "hacks.mk" {
+				res.Count("wholerun_hacks_rewritten_without_U", 1)
+			}
+		} else if !c.always {
+			res.Count("wholerun_include_rewritten_with_U", 1)
+		}
+		toks := []string{"e", hx(c14CondText(c.line)), hx(c14CondText(nl)), hx(c.name)}
+		if !c.always && !c.sure {
+			toks = append(toks, "U")
+		}
+		toks = append(toks, "V"+hx("NetBSD"), "V"+hx("native"), "V"+hx("cat/pkg"), "V"+hx("x86_64"), "V"+hx("other"))
+		reqs = append(reqs, strings.Join(toks, " "))
+		asked = append(asked, c)
+		news = append(news, nl)
+	}
+	ans, err := runOracle(st.ctx, "c14", reqs)
+	if err != nil {
+		res.Broken = err.Error()
+		return
+	}
+	for i, c := range asked {
+		pairs := strings.Fields(ans[i])
+		vals := []string{"NetBSD", "native", "cat/pkg", "x86_64", "other"}
+		undef := !c.always && !c.sure
+		for k, pr := range pairs {
+			res.Evaluations++
+			vs := ""
+			isUndef := undef && k == 0
+			if isUndef {
+				vs = "undefined"
+			} else if undef {
+				vs = q(vals[k-1])
+			} else {
+				vs = q(vals[k])
+			}
+			o, n := pr[0], pr[1]
+			if o == 'X' || n == 'X' || o == 'M' || o == n {
+				if o == n {
+					res.Count("wholerun_include_preserved", 1)
+				}
+				continue
+			}
+			key := "C14/wholerun-include/" + map[bool]string{true: "undefined", false: "value"}[isUndef]
+			if isUndef && c.cond {
+				key = "C14/word/undefined/conditional-include"
+			}
+			tr := map[byte]string{'T': "true", 'F': "false", 'M': "malformed"}
+			res.AddViolation(Violation{Key: key,
+				What: fmt.Sprintf("pkglint -F %s: line %d %q is rewritten to %q although the preferences are not loaded for sure at that line; with %s = %s the original is %s, the rewritten condition is %s",
+					c.file, c.lineno, c.line, news[i], c.name, vs, tr[o], tr[n]),
+				FoundInput: true, Size: 2000 + len(c.line),
+				Replay: map[string]any{"kind": "wholerun-include", "file": c.file, "line": hx(c.line), "new_line": hx(news[i])}})
+		}
+	}
+}
+
 // ---------- entry points ----------
 
 func c14NewState(ctx *Ctx, res *Result) *c14State {
@@ -1593,6 +2324,15 @@ func runC14(ctx *Ctx) *Result {
 	}
 
 	if res.Broken == "" {
+		st.checkLoadsPrefs()
+	}
+	if res.Broken == "" {
+		st.wholeRunIncludes(rng, "a")
+	}
+	if res.Broken == "" {
+		st.wholeRunMakefiles(rng, "a")
+	}
+	if res.Broken == "" {
 		st.c14CrossCheckExtraction()
 	}
 
@@ -1616,7 +2356,12 @@ func runC14(ctx *Ctx) *Result {
 			key string
 			min int
 		}{{"rewrite_word", 300}, {"rewrite_yesno", 60}, {"rewrite_match", 100}, {"rewrite_and", 20}, {"rewrite_yesno_N", 10}, {"wholerun_rewritten", 100}, {"maymatchnumber_no_checked", 5},
-			{"nested_pattern_cases", 2000}, {"nested_preserved", 500}} {
+			{"nested_pattern_cases", 2000}, {"nested_preserved", 500},
+			// what feeds isDefined: includes of prefs files and near misses, before / conditionally before / after the condition
+			{"include_context_cases", 3000}, {"include_before_loads", 400}, {"include_before_nearmiss", 400}, {"include_cond_loads", 400}, {"include_after_loads", 400},
+			{"seenprefs_no", 2000}, {"seenprefs_and_really_loaded", 2000}, {"loadsprefs_true", 300}, {"loadsprefs_false", 5000}, {"hacks_mk_cases", 100}, {"guarded_fragment_cases", 200}, {"guarded_fragment_rewritten_without_U", 50}, {"undef_after_assignment_cases", 200},
+			{"wholerun_include_rewritten", 60}, {"wholerun_include_rewritten_with_U", 20}, {"wholerun_include_rewritten_without_U", 5}, {"wholerun_hacks_rewritten_without_U", 2},
+			{"vm_compute_cross_checked_model_runs", 20}} {
 			n, _ := res.Distribution[fl.key].(int)
 			if n < fl.min {
 				res.Broken = fmt.Sprintf("coverage floor missed: %s = %d < %d", fl.key, n, fl.min)
